@@ -29,11 +29,23 @@ ASSUMPTIONS = {
 }
 
 SETUP_CMD = 'true'
-HOOKS = dict(guard='none (no hook commits yet)', enable='n/a', baseline_off_cmd='cd /repo && cargo test --workspace --no-fail-fast --offline',
-             source_commits=[], add_only=True)
+HOOKS = dict(guard='cargo feature `verif_hooks` of the logos crate (off by default) and cfg(kani) (set only by cargo-kani)',
+             enable='K-lex harness crate built with --features verif_hooks (C20, C04 thorough); `cargo kani` in /repo/logos-codegen compiles the cfg(kani) proof module',
+             baseline_off_cmd='cd /repo && cargo test --workspace --no-fail-fast --offline',
+             source_commits=['4f99db3', '10fc700'], add_only=True)
 ENGINES = [
-    dict(name='V-src', path='vx/contracts/v_src.py', serves_properties=['C14', 'C15'],
+    dict(name='V-src', path='vx/contracts/v_src.py', serves_properties=['C01', 'C02', 'C03', 'C04', 'C05', 'C07', 'C12', 'C13', 'C14', 'C15'],
          kind_free_text='Verus on src/{source,lexer,internal,lib}.rs extracted mechanically by vx/extract.py, both forbid_unsafe configurations'),
+    dict(name='V-skip', path='vx/contracts/v_skip.py', serves_properties=['C13'],
+         kind_free_text='Verus on SkipRetVal::construct and From<SkipResult> (separate file because of a Verus name-resolution limit)'),
+    dict(name='V-cg', path='vx/contracts/v_cg.py', serves_properties=['C01'],
+         kind_free_text='Verus on ByteClass::{new,add_byte,to_table}, Comparisons, StateType of logos-codegen/src/graph/mod.rs'),
+    dict(name='K-src', path='kani/src_proofs', serves_properties=['C05', 'C14', 'C15'],
+         kind_free_text='Kani harnesses over the public/doc(hidden) runtime API: memory model for the unsafe code, twins of loop-free Verus contracts, native replay'),
+    dict(name='K-cg', path='kani/cg_proofs.rs', serves_properties=['C01'],
+         kind_free_text='Kani harnesses path-included into logos-codegen under cfg(kani): impl_with_cmp, add_back_edge (bounded)'),
+    dict(name='K-lex', path='kani/lex', serves_properties=['C01', 'C02', 'C03', 'C04', 'C05', 'C06', 'C07', 'C10', 'C11', 'C12', 'C13', 'C18', 'C20'],
+         kind_free_text='Kani harnesses over real #[derive(Logos)] output for a corpus of definitions vs an executable specification (bounded stand-in)'),
 ]
 
 # ---------------------------------------------------------------------------------------------------
@@ -80,12 +92,220 @@ def _bump_candidates():
                     out.append((h, [[0]] * N + [le(s), le(e), le(n)]))
     return out
 
+# ---------------------------------------------------------------------------------------------------
+# K-lex: harness selection from the generated index and the measured cost table (kani/lex/costs.json)
+
+import os as _os, json as _json
+_ROOT = _os.path.abspath(_os.path.join(_os.path.dirname(_os.path.abspath(__file__)), '..'))
+
+def _costs(config):
+    p = _os.path.join(_ROOT, 'kani', 'lex', 'costs.json')
+    if not _os.path.exists(p): return {}
+    return _json.load(open(p)).get(config, {})
+
+def klex_select(kinds, defs, quick_cost=40, quick_per_def=5, thorough_cost=300, config='default', names=None):
+    """-> callable(tier, crate_dir) -> harness names.  Only harnesses with a measured cost are eligible: a harness whose
+    cost on the unchanged tree is unknown or above the tier's budget is never scheduled (it could only time out)."""
+    def sel(tier, crate_dir):
+        idx = _json.load(open(_os.path.join(crate_dir, 'src', 'harness_index.json')))
+        costs = _costs(config)
+        out = []
+        for d in defs:
+            cand = [(costs[h], h) for h, m in idx.items()
+                    if m['d'] == d and m['kind'] in kinds and costs.get(h) is not None and (names is None or names(h, m))]
+            cand.sort()
+            if tier == 'thorough':
+                out += [h for c, h in cand if c <= thorough_cost]
+            else:
+                # quick: per definition, the cheapest harness of each kind first, then by cost, within the budget
+                picked = []
+                for k in kinds:
+                    for c, h in cand:
+                        if idx[h]['kind'] == k and c <= quick_cost and h not in picked:
+                            picked.append(h); break
+                for c, h in cand:
+                    if len(picked) >= quick_per_def: break
+                    if c <= quick_cost and h not in picked: picked.append(h)
+                out += picked[:max(quick_per_def, len(kinds))]
+        return out
+    return sel
+
+def klex_timeout(config='default'):
+    def t(h, tier):
+        c = _costs(config).get(h) or 60
+        return max(900, int(12 * c))
+    return t
+
+def klex_suite(label, kinds, defs, covers=(), configs=((),), configs_quick=None, bounded='', **kw):
+    cfgname = lambda f: '+'.join(f) or 'default'
+    # one suite per configuration, because costs (hence the selection) differ per configuration
+    suites = []
+    for tier_cfgs, only in ((configs, None),):
+        for f in tier_cfgs:
+            suites.append(dict(crate='lex', label='%s [%s]' % (label, cfgname(f)), configs=[f],
+                               harnesses=klex_select(kinds, defs, config=cfgname(f), **kw), timeout=klex_timeout(cfgname(f)),
+                               covers=list(covers) if f == () or f == ('verif_hooks',) else [], bounded=bounded,
+                               quick=(configs_quick is None or f in configs_quick)))
+    return suites
+
+SPEC_KINDS = ('spec', 'specc', 'ctx', 'skel', 'skelc')
+BYTE_DEFS = ['B1', 'B2', 'B3', 'B4', 'B5', 'E1']
+SKIP_DEFS = ['S1', 'S2']
+STR_DEFS = ['U1', 'U2', 'E2']
+BOUND_NOTE = ('corpus definitions %s; inputs: fully symbolic bytes up to the listed length (spec_*), or a concrete context with '
+              '1-3 symbolic bytes (ctx_*), or skip skeletons (skel_*); one next() per harness from a concrete start; '
+              'every harness is listed with its input shape in kani_harnesses')
+
 TWINS = {
     'bump_twin': dict(crate='src_proofs', harnesses=['bump_twin_n3', 'bump_twin_n0', 'bump_twin_n7', 'state_n4'], allow=BUMP_ALLOW,
                       native_candidates=_bump_candidates),
 }
 
 PLAN = {
+    'C01': dict(
+        level='model_checking', engine='verus+kani',
+        verus=[('v_cg', [{}]), ('v_src', BOTH)],
+        kani=klex_suite('K-lex maximal munch', SPEC_KINDS, BYTE_DEFS + SKIP_DEFS + STR_DEFS + ['K1'],
+                        covers=['token produced', 'error produced', 'end of input reached', 'token after a skipped region'],
+                        bounded=BOUND_NOTE % 'B1-B5, E1, S1, S2, U1, U2, E2, K1')
+             + [dict(crate='cg', label='K-cg byte-class rendering', pool=False, module='graph::verif_proofs', crate_dir='logos-codegen',
+                     harnesses=lambda tier, crate_dir=None: ['cg_impl_with_cmp_k1', 'cg_impl_with_cmp_k2', 'cg_add_back_edge_n0', 'cg_add_back_edge_n2', 'cg_add_back_edge_n3'] + (['cg_impl_with_cmp_k3'] if tier == 'thorough' else []),
+                     timeout=lambda h, tier: 3000,
+                     bounded='ByteClass::impl_with_cmp on well-formed classes of <= 2 (quick) / 3 (thorough) ranges with symbolic bounds; add_back_edge on sorted lists of <= 3 states')],
+        technique='bounded model checking (Kani/CBMC) of the real derive output against an executable specification; Verus proofs of the byte-class algebra and of the tiling contract of Lexer::next',
+        level_text='For each corpus definition and every explored input the real generated lexer (whole pipeline: parser, regex-syntax, regex-automata, '
+                   'Graph::new, Generator) yields at the explored start position exactly the item the specification demands: longest non-empty match over '
+                   'all patterns, variant/skip of the unique highest-priority pattern matching that prefix. Bounded (corpus x input shapes), labelled as such; '
+                   'the byte-class algebra (add_byte, to_table) and next()\'s tiling are proved unbounded.',
+        level_note='Not covered: definitions outside the corpus; inputs outside the listed shapes; regex-syntax/regex-automata are trusted; the hand translation '
+                   'of corpus patterns into spec combinators is trusted (validated against the unchanged tree); Graph::new passes are covered only through their effect.',
+        design_ref='DESIGN.md sections 2.3, 3 (C01)',
+        explanation='K-lex harnesses compare one next() of the real lexer with spec::expected_item; V-cg proves ByteClass::add_byte/to_table; V-src proves the tiling contract',
+    ),
+    'C02': dict(
+        level='model_checking', engine='verus+kani',
+        verus=[('v_src', BOTH)],
+        kani=klex_suite('K-lex error spans', SPEC_KINDS, ['E1', 'E2', 'B1', 'B2', 'U1', 'K2', 'L1'],
+                        covers=['error produced', 'error longer than one byte'],
+                        bounded=BOUND_NOTE % 'E1, E2, B1, B2, U1, K2, L1'),
+        technique='Verus proof that str::find_boundary returns the least char boundary >= its argument (loop invariant) and that end_to_boundary stores it; bounded model checking (Kani) of error items against the specified span rule',
+        level_text='Rounding of error ends is proved for all strings and offsets; that the generated error arm reports [p, max(first non-viable byte, p+1)) rounded up, '
+                   'with the default / callback-supplied error value, is checked (bounded) on the corpus.',
+        level_note='Viability is computed by the spec combinators (prefix closure of each pattern); look-around patterns are not in the corpus.',
+        design_ref='DESIGN.md section 3 (C02)',
+        explanation='find_boundary / end_to_boundary contracts (V-src) + K-lex error-shaped corpus entries',
+    ),
+    'C03': dict(
+        level='model_checking', engine='verus+kani',
+        verus=[('v_src', BOTH)],
+        kani=klex_suite('K-lex progress and tiling', SPEC_KINDS, ['B1', 'B2', 'B5', 'E1', 'S1', 'S2', 'U1', 'Q1', 'O2'],
+                        covers=['end of input reached', 'token produced', 'token after a skipped region'],
+                        bounded=BOUND_NOTE % 'B1, B2, B5, E1, S1, S2, U1, Q1, O2'),
+        technique='Verus proof that Iterator::next tiles the input for every lex satisfying the trait contract LEX; bounded model checking (Kani) that derived lex impls satisfy LEX',
+        level_text='Proved for every token type whose lex meets LEX: each item starts at or after the previous end, is non-empty and inside the source, None leaves an empty span at the end. '
+                   'LEX itself (non-empty items, None exactly at end of input, skips only between items) is checked bounded on the corpus with CBMC unwinding assertions on.',
+        level_note='The clause "no definition with an empty-matching pattern is accepted" is not decided (Graph::new / regex-automata out of reach).',
+        design_ref='DESIGN.md section 3 (C03)',
+        explanation='LEX contract on Logos::lex, proved-from in V-src (Lexer::next, SpannedIter::next), checked-against in K-lex',
+    ),
+    'C04': dict(
+        level='model_checking', engine='verus+kani',
+        verus=[('v_src', BOTH)],
+        kani=klex_suite('K-lex char boundaries', SPEC_KINDS, ['U1', 'U2', 'E2', 'L2', 'I1', 'P1', 'Q1'],
+                        covers=['token produced', 'error produced'],
+                        configs=((), ('verif_hooks',)), configs_quick=((),),
+                        bounded=BOUND_NOTE % 'U1, U2, E2, L2, I1, P1, Q1 (all valid UTF-8 inputs of the listed shapes)'),
+        technique='Verus proof that every hand-written function that moves token_start/token_end keeps both on char boundaries under the interface preconditions; bounded model checking (Kani) that generated code honours those preconditions on str-mode definitions',
+        level_text='Unbounded proof for src/lexer.rs and src/source.rs (slice/remainder never slice off a boundary; bump panics instead; error ends are rounded); '
+                   'bounded check that derived lexers only call end(o) with o on a boundary (monitored by the verif_hooks feature in the thorough tier) and that every observable span end is a boundary.',
+        level_note='The acceptance clause (str-mode definitions matching invalid UTF-8 are rejected) is not decided (regex-syntax Hir properties).',
+        design_ref='DESIGN.md section 3 (C04)',
+        explanation='wf invariant includes boundary(token_start/end); K-lex asserts is_boundary on every span end over valid UTF-8 inputs',
+    ),
+    'C05': dict(
+        level='model_checking', engine='verus+kani',
+        verus=[('v_src', BOTH)],
+        kani=[KSRC_READ, KSRC_STATE]
+             + klex_suite('K-lex memory safety', SPEC_KINDS, ['B5', 'B1', 'B2', 'S2', 'U1', 'E1'],
+                          covers=['token produced'], configs=((), ('forbid_unsafe',)),
+                          bounded=BOUND_NOTE % 'B5 (lengths 0..10, crossing the 8-byte batch), B1, B2, S2, U1, E1; exactly sized stack arrays; default and forbid_unsafe builds'),
+        technique='Verus proof of the Source::read contract (all lengths, offsets, chunk sizes) and of slice/remainder bounds; CBMC object-bounds checking of the real unsafe code on exactly sized buffers',
+        level_text='The second sentence of the property is the proved postcondition of Source::read for str and [u8]; slice()/remainder() are proved in bounds under the invariant; '
+                   'every raw read of the real code is checked by CBMC inside its object for len <= 40 (offset unconstrained); whole lexers are checked bounded in both builds against one specification (hence equal to each other), no panic reachable in the forbid_unsafe build.',
+        level_note='Chunk::from_ptr bodies are trusted to Verus (Kani-checked); impl<T: Deref> Source for T is Kani-only.',
+        design_ref='DESIGN.md section 3 (C05)',
+        explanation='Source::read contract + Kani memory model on exactly sized buffers',
+    ),
+    'C06': dict(
+        level='model_checking', engine='kani',
+        kani=klex_suite('K-lex both code generators', SPEC_KINDS, ['B1', 'B2', 'B4', 'B5', 'E1', 'S2', 'K1', 'U1'],
+                        covers=['token produced', 'error produced'], configs=((), ('state_machine_codegen',)),
+                        bounded=BOUND_NOTE % 'B1, B2, B4, B5, E1, S2, K1, U1 under the tail-call and the state-machine generator'),
+        technique='bounded model checking (Kani/CBMC): the same harnesses against one deterministic specification under both code generators',
+        level_text='Both generated lexers are compared with the same specification (results, spans, callback invocation count and observed spans), so they agree on all explored inputs. Bounded.',
+        level_note='The stack-space clause is not applicable (no contract language here expresses stack depth). Harness sets differ per generator where one of them is intractable for CBMC.',
+        design_ref='DESIGN.md section 3 (C06)',
+        explanation='same spec, two feature sets',
+    ),
+    'C07': dict(
+        level='model_checking', engine='verus+kani',
+        verus=[('v_src', BOTH)],
+        kani=klex_suite('K-lex partial lexing', ('part',), ['Q1', 'B1', 'B2', 'E1', 'S2', 'U1'],
+                        covers=['partial lexer committed an item', 'partial lexer asked for more input'], quick_per_def=6,
+                        bounded='relational: partial lexer over S[..k] vs one-shot lexer over S, every split point k of concrete contexts with a symbolic continuation byte; definitions Q1 (tests/partial.rs), B1, B2, E1, S2, U1'),
+        technique='relational bounded model checking (Kani): partial lexer on every prefix vs the one-shot lexer; Verus proof that a partial None leaves a well-formed empty span',
+        level_text='Commit clause: whatever a partial lexer yields equals the one-shot item (result, variant, span) and a None leaves an empty span at a position not past the next one-shot item; bounded. The promptness clause is not decided.',
+        level_note='Promptness ("as soon as determined") needs a determinedness predicate over all continuations: not expressible here.',
+        design_ref='DESIGN.md section 3 (C07)',
+        explanation='partial_vs_full harness; LEX None-and-prefix clause in V-src',
+    ),
+    'C10': dict(
+        level='model_checking', engine='kani',
+        kani=klex_suite('K-lex literals and ignore(case)', SPEC_KINDS, ['L1', 'L2', 'I1', 'I2'],
+                        covers=['token produced', 'error produced'], quick_per_def=8,
+                        bounded=BOUND_NOTE % 'L1 (metacharacter literals, bytes >= 0x80), L2 (multi-byte literals), I1 (ignore(case) on token, regex, skip: Unicode simple folding), I2 (byte-string literals: ASCII folding)'),
+        technique='bounded model checking (Kani) of corpus definitions against hand-expanded literal / case-variant specifications',
+        level_text='Each #[token] literal of the corpus matches exactly its bytes; ignore(case) on token, regex and skip patterns matches exactly the hand-expanded case-variant language. Bounded, sample literals.',
+        level_note='Literal::escape and Pattern::compile are not under contract (string formatting / regex-syntax).',
+        design_ref='DESIGN.md section 3 (C10)',
+        explanation='spec = lit(w) / expanded case variants',
+    ),
+    'C11': dict(
+        level='model_checking', engine='kani',
+        kani=klex_suite('K-lex subpatterns', ('twin',) + SPEC_KINDS, ['P1', 'P2'],
+                        covers=['twins: token', 'twins: error'], quick_per_def=8,
+                        bounded='relational: subpattern definitions P1, P2 vs twins with references inlined by hand as (?u:..)/(?-u:..) groups, plus both vs the spec; concrete contexts with symbolic bytes'),
+        technique='relational bounded model checking (Kani): subpattern definitions vs hand-inlined twins',
+        level_text='Definitions using (?&name) lex identically to their hand-inlined twins (nested references, alternation followed by a suffix, inline (?i) inside a subpattern, byte-string subpattern). Bounded.',
+        level_note='Undefined-name rejection is a compile-time outcome: not decided.',
+        design_ref='DESIGN.md section 3 (C11)',
+        explanation='twins_agree harness',
+    ),
+    'C12': dict(
+        level='model_checking', engine='verus+kani',
+        verus=[('v_src', BOTH)],
+        kani=klex_suite('K-lex str vs byte mode', ('modes',), ['U1', 'U2'],
+                        covers=['modes: token', 'modes: error'], quick_per_def=8,
+                        bounded='relational: U1/U2 in str mode vs utf8 = false twins over valid UTF-8 contexts with symbolic bytes'),
+        technique='Verus proof that byte sources never round (find_boundary identity, is_boundary = index <= len); relational bounded model checking (Kani) of str/bytes twins',
+        level_text='find_boundary on [u8] is proved to be the identity; twins agree on Ok tokens and spans, and byte-mode errors cover exactly the bytes of the str-mode error. Bounded.',
+        level_note='Acceptance clause not decided.',
+        design_ref='DESIGN.md section 3 (C12)',
+        explanation='modes_agree harness',
+    ),
+    'C13': dict(
+        level='model_checking', engine='verus+kani',
+        verus=[('v_src', BOTH), ('v_skip', BOTH)],
+        kani=klex_suite('K-lex callbacks', SPEC_KINDS, ['K1', 'K2'],
+                        covers=['token produced', 'error produced', 'token after a skipped region'], quick_per_def=12,
+                        bounded=BOUND_NOTE % 'K1 (one callback of every CallbackRetVal type, bump inside a callback), K2 (error callback, every SkipRetVal type)'),
+        technique='Verus proof, generic in all type parameters, of the 12 CallbackRetVal::construct impls, the 4 SkipRetVal impls and From<SkipResult>; bounded model checking (Kani) of the generated dispatch with recording callbacks',
+        level_text='Each construct impl is proved to map the callback value to Emit/Error/DefaultError/Skip exactly as the documented table says, for all values and type parameters; '
+                   'that the generated leaf bodies call the callback once per winning match with span()/slice() equal to the match and apply the table row is checked bounded.',
+        level_note='callbacks are assumed total (con.requires for all arguments).',
+        design_ref='DESIGN.md section 3 (C13)',
+        explanation='construct contracts + K1/K2 corpus',
+    ),
     'C14': dict(
         level='proof',
         verus=[('v_src', BOTH)],
@@ -115,5 +335,28 @@ PLAN = {
         level_note='Trusted: Verus+Z3, vstd; the panic itself is modelled by an external_body diverging function whose precondition is the state invariant.',
         design_ref='DESIGN.md sections 2.2, 3 (C15), 6',
         explanation='bump contract: exact integer postcondition, no overflow on any path, state invariant at the panic point',
+    ),
+    'C18': dict(
+        level='model_checking', engine='kani',
+        kani=[dict(s, build_failure_is_violation=True) for s in
+              klex_suite('K-lex argument order', ('twin',) + SPEC_KINDS, ['O1', 'O2'],
+                         covers=['twins: token', 'twins: error'], quick_per_def=10,
+                         bounded='relational, sampled: definitions O1 (token/regex/skip arguments) and O2 (one combined #[logos(..)] attribute) vs twins with permuted arguments (O1A, O1B, O2A); a permutation the derive rejects fails the build of the corpus crate and is reported as a violation')],
+        technique='relational bounded model checking (Kani) of definitions whose attribute arguments are permuted; build outcome of the corpus crate',
+        level_text='Sampled permutations only: the attribute parser works on proc-macro token trees and cannot be put under contract. Twins must build and lex identically.',
+        level_note='weak: three permutations of two definitions.',
+        design_ref='DESIGN.md section 3 (C18)',
+        explanation='twins_agree on permuted definitions',
+    ),
+    'C20': dict(
+        level='model_checking', engine='kani',
+        kani=klex_suite('K-lex read trace', SPEC_KINDS, ['B1', 'B2', 'B3', 'B5', 'E1', 'S1', 'S2', 'U1', 'K1'],
+                        covers=['C20 monitor: at least two reads traced', 'token produced'], configs=(('verif_hooks',),),
+                        bounded=BOUND_NOTE % 'B1, B2, B3, B5, E1, S1, S2, U1, K1 with the ghost read-trace monitor of the verif_hooks feature'),
+        technique='bounded model checking (Kani) with a ghost read-trace monitor (feature verif_hooks): offsets never decrease within an attempt, never fall below its start, reads <= 4 x bytes examined + 4',
+        level_text='Every source read goes through LexerInternal::read, which the hook instruments; the monitor flags are asserted after each explored next(). Bounded.',
+        level_note='the linear bound is checked on short inputs only, where a super-linear defect may stay below it; monotonicity is the sharper check.',
+        design_ref='DESIGN.md section 3 (C20)',
+        explanation='ghost state in src/verif_hooks.rs',
     ),
 }
